@@ -43,6 +43,7 @@ class State:
         self.frames = []              # active loop frames (declared write sets)
         self.solver_secs = 0.0
         self.n_queries = 0
+        self.value_terms = []         # real-valued inputs / abstract results to keep small in counterexamples
         self.size_terms = []          # int terms (lengths, counters) to keep small in counterexamples
         self.trusted = set()          # library models used on this path
         self.assumptions = set()
@@ -210,10 +211,13 @@ class State:
                 return None
             m = self.solver.model()
             # prefer small counterexamples: bound the registered size terms, then loosen
-            for bound in (3, 6, 12):
+            for bound in (3, 6, 12, 40):
                 self.solver.push()
                 for t in self.size_terms:
                     self.solver.add(t <= bound, t >= -bound)
+                if bound < 40:
+                    for t in self.value_terms[:400]:
+                        self.solver.add(z3.Or(z3.And(t <= bound * 4, t >= -bound * 4), t == INF))
                 r = self.solver.check()
                 if r == z3.sat:
                     m = self.solver.model()
